@@ -70,6 +70,9 @@ where
         while let Some(row) = self.child.next()? {
             rows.push(row);
         }
+        // The source is exhausted: release what it still holds (a scan keeps its last leaf
+        // latched until it is closed, and inserting into that very table would wait for it forever).
+        self.child.close()?;
 
         // A statement is all or nothing: look at every row before storing the first.
         if rows.len() > 1 {
